@@ -46,6 +46,10 @@ static void check_pair(const Tables& t, const std::vector<double>& a, const std:
   };
   { SU_vector r(iCommutator(va, vb)); cmp("iCommutator", r, ic); }
   { SU_vector r(ACommutator(va, vb)); cmp("ACommutator", r, ac); }
+  // same object on both sides (operands are const references)
+  if (&a == &b || a == b) { SU_vector r(iCommutator(va, va)); std::vector<double> z(n, 0.0); std::vector<double> g = comps(r); double e = maxdiff(g, z); if (!(e <= tol)) violation("iCommutator(a,a):nonzero:d=" + std::to_string(d), J().i("d", d).arr("a", a).arr("got", g).done());
+    SU_vector q(ACommutator(va, va)); double e2 = maxdiff(comps(q), ac); if (!(e2 <= tol)) violation("ACommutator(a,a):mismatch:d=" + std::to_string(d), J().i("d", d).arr("a", a).done());
+    double t2 = va * va; if (!(std::fabs(t2 - tr) <= 64 * d * d * ref::EPS * scale)) violation("operator*(a,a):trace-mismatch:d=" + std::to_string(d), J().i("d", d).arr("a", a).num("got", t2).num("want", tr).done()); }
   double got = va * vb;
   double ttol = 64 * d * d * ref::EPS * scale;
   if (scale > 0) maxstat("trace_err/tol", std::fabs(got - tr) / ttol);
